@@ -274,6 +274,8 @@ Definition create (e : env) (s : state) (h : nat) (ts span : Z) (sender recip so
     if negb (a_active a) then Err else
     if (x <? a_min a) || (a_max a <? x) then Err else
     if (ts <? (s_time s - 900 * SEC) / SEC) || ((s_time s + 1800 * SEC) / SEC <=? ts) then Err else
+    (* the expiry height must not wrap around uint64 (fix of x/bep3/keeper/swap.go) *)
+    if U64 - 1 - s_height s <? span then Err else
     let dirr :=
       if Nat.eqb sender (a_deputy a)
       then (if Nat.eqb recip (a_deputy a) then None else Some Incoming)
